@@ -97,7 +97,11 @@ BareLiteral(c) == ~IsDigit(c) /\ c \notin AsciiLetters /\ c \notin {"+", "\\"}
 
 Unambiguous(p, ty, v) ==
   LET T == p  n == Len(T) IN
-  /\ \A i \in 1..n, j \in 1..n : (i < j /\ IsSym(T[i], ty) /\ IsSym(T[j], ty)) => FieldGroup(T[i].c) # FieldGroup(T[j].c)
+  \* one field per group, except that a 24-hour field may stand beside a 12-hour one: both are fixed in text, the text comes
+  \* from one value, and the 24-hour field alone determines the hour
+  /\ \A i \in 1..n, j \in 1..n : (i < j /\ IsSym(T[i], ty) /\ IsSym(T[j], ty)) =>
+         \/ FieldGroup(T[i].c) # FieldGroup(T[j].c)
+         \/ ({T[i].c, T[j].c} \cap {"H", "k"} # {} /\ {T[i].c, T[j].c} \cap {"h", "K"} # {})
   /\ \A i \in 1..n : NeedsTerminator(T[i], ty) => (i = n \/ ~IsDigit(FirstChar(T[i + 1], v, ty)))
   \* a width-5 zone offset may end in ":ss": a following ":" would be ambiguous
   /\ \A i \in 1..n : (IsSym(T[i], ty) /\ T[i].c \in {"X", "x"} /\ Eff(T[i].w, 5, 3) = 5 /\ i < n) => FirstChar(T[i + 1], v, ty) # ":"
